@@ -8,6 +8,7 @@ import (
 	"log"
 	mrand "math/rand"
 	"os"
+	"runtime"
 	"sort"
 	"strings"
 	"sync"
@@ -119,6 +120,7 @@ func NewSim(t *testing.T, prop string, seed uint64, wl, sch *Tape) *Sim {
 	log.SetFlags(0)
 	// randomness the code under test draws by itself is seeded from the run seed: uuids and the jitter of the
 	// reconnect back-off (math/rand top-level functions)
+	runtime.SimSeed = mix(seed, 79) | 1 // build overlay: select poll order and map iteration follow the run seed
 	uuid.SetRand(&seedReader{state: mix(seed, 77)})
 	mrand.Seed(int64(mix(seed, 78) >> 1))
 	s.start = time.Now()
@@ -163,6 +165,7 @@ func (s *Sim) Close() {
 		s.cleanup[i]()
 	}
 	log.SetOutput(io.Discard)
+	runtime.SimSeed = 0
 	_ = os.RemoveAll(s.Dir)
 	s.Stats.Steps = s.Step
 	s.Stats.SimTime = time.Since(s.start)
